@@ -43,7 +43,7 @@ class Calendar:
     DAYS_IN_MONTHS = None  # This is set up in the set_* methods.
     DAYS_IN_MONTHS_LEAP = None  # This is set up in the set_* methods
     ROUGH_DAYS_IN_MONTH = 30  # Used for duration conversion, nowhere else.
-    MAX_WEEKS_IN_YEAR = 53  # In ISO week year, used for truncated dates
+    MAX_WEEKS_IN_YEAR = None  # This is set up in the set_* methods.
 
     LEAP_YEAR_FACTOR_TRUTHS = [(4, True), (100, False), (400, True)]
 
@@ -120,6 +120,8 @@ class Calendar:
         self.ROUGH_DAYS_IN_YEAR = self.DAYS_IN_YEAR
         self.DAYS_IN_YEAR_LEAP = sum(self.DAYS_IN_MONTHS_LEAP)
         self.MAX_DAYS_IN_MONTH = max(self.DAYS_IN_MONTHS)
+        # In ISO week year, used for truncated dates
+        self.MAX_WEEKS_IN_YEAR = -(-self.DAYS_IN_YEAR_LEAP // self.DAYS_IN_WEEK)
         self.HOURS_IN_YEAR = self.DAYS_IN_YEAR * self.HOURS_IN_DAY
         self.MINUTES_IN_YEAR = self.DAYS_IN_YEAR * self.MINUTES_IN_DAY
         self.SECONDS_IN_YEAR = self.DAYS_IN_YEAR * self.SECONDS_IN_DAY
